@@ -285,5 +285,8 @@ func (l *layout) describe() map[string]any {
 }
 
 func agoStr(mt int64) string {
+	if mt == 0 {
+		return "none"
+	}
 	return fmt.Sprintf("now-%v", time.Duration(time.Now().UnixNano()-mt).Round(time.Minute))
 }
